@@ -1,4 +1,16 @@
+use vcore::report::Ctx;
 use vcore::*;
+
+fn arg_after(args: &[String], key: &str) -> Option<String> {
+    args.iter().position(|a| a == key).and_then(|i| args.get(i + 1).cloned())
+}
+
+const ASSUME_LAW: [&str; 4] = [
+    "the PRNG (VERIF_PRNG, default ChaCha12) is an ideal bit source at the sample sizes used",
+    "reference laws are correct to 1e-8 relative (validated against the scipy/mpmath golden table at every run)",
+    "null model slacks of DESIGN 3.2 (output rounding 8 eps, uniform granularity, relative slack 16 eps kappa)",
+    "float maths through the platform libm (num-traits/std is unified on by the harness, as in the pinned test suite)",
+];
 
 fn main() {
     let args: Vec<String> = std::env::args().collect();
@@ -10,7 +22,53 @@ fn main() {
                 println!("MISMATCH {b}");
             }
             println!("golden rows checked: {n}, mismatches: {}", bad.len());
-            std::process::exit(if bad.is_empty() { 0 } else { 2 });
+            std::process::exit(if bad.is_empty() && n > 0 { 0 } else { 2 });
+        }
+        "diag" => {
+            // verif diag '<cell json>' n : per-edge table (development aid)
+            let cell: families::Cell = serde_json::from_str(&args[2]).expect("cell json");
+            let n: u64 = args.get(3).and_then(|s| s.parse().ok()).unwrap_or(4_000_000);
+            let s = families::build(&cell).expect("build");
+            let law = refdist::reflaw(&cell).expect("law");
+            let sl = stats::Slack::for_cell(&cell, &law);
+            let edges = stats::build_edges(&law, cell.ft, !cell.fam.int_only());
+            let eb: Vec<stats::EdgeB> = edges.iter().map(|&x| stats::edge_bounds(&law, &sl, x)).collect();
+            let h = stats::histogram(s.as_ref(), &edges, n, 12345);
+            println!("cell {} n={} rho_rel={:e} rho_abs={:e} nan={} min={:e} max={:e}", cell.key(), n, sl.rho_rel, sl.rho_abs, h.nan, h.min, h.max);
+            let mut cum = 0u64;
+            for i in 0..eb.len() {
+                cum += h.counts[i];
+                let a = cum as f64 / n as f64;
+                let z = (a - eb[i].p) / (eb[i].p * eb[i].q / n as f64).sqrt();
+                println!("{:3} x={:<24e} p={:<12.6e} obs={:<12.6e} lo={:<12.6e} hi={:<12.6e} bin={:<9} z={:+.2}", i, eb[i].x, eb[i].p, a, eb[i].p_lo, eb[i].p_hi, h.counts[i], z);
+            }
+            for r in stats::run_tests(&eb, &h, &stats::TestOpts::default()) {
+                println!("REJECT {:?}", r);
+            }
+        }
+        "check" => {
+            let id = args.get(2).cloned().unwrap_or_default();
+            let tier = arg_after(&args, "--tier").unwrap_or_else(|| "quick".into());
+            let seed: u64 = arg_after(&args, "--seed").and_then(|s| s.parse().ok()).unwrap_or(0);
+            report::quiet_panics();
+            let ctx = Ctx::new(&id, &tier, seed);
+            let code = match id.as_str() {
+                "C01" => {
+                    let plans = laws::plans_c01(&ctx);
+                    laws::run(&ctx, plans, 1_000_000);
+                    ctx.finish("cell = (family, float type, parameter vector in E) sampled n times and tested with T1/T2/T3 against an independent reference CDF; grid cells straddle every switch point, random cells are drawn inside E (25% near a switch); non-trivial = n >= 1e6, >= 30 representable edges, every edge with p >= 100/n saw samples on both sides; distinct = distinct cell keys", &ASSUME_LAW, false)
+                }
+                "C02" => {
+                    let plans = laws::plans_c02(&ctx);
+                    laws::run(&ctx, plans, 100_000);
+                    ctx.finish("cell = (family, float type, parameter tuple) sampled n times; every integer with pmf >= 1e-4 is its own bin, rest grouped at quantile edges; exhaustive small sets (Binomial n<=30 x p-grid, Hypergeometric N<=40), switch grids, random tuples; non-trivial = >= 3 bins with expected count >= 1000 or a documented constant; distinct = distinct cell keys", &ASSUME_LAW, false)
+                }
+                _ => {
+                    eprintln!("unknown property {id}");
+                    2
+                }
+            };
+            std::process::exit(code);
         }
         _ => {
             eprintln!("usage: verif <golden|selftest|check|replay> ...");
